@@ -812,12 +812,8 @@ theorem C09_full_partial {song : Song} {d : DataInfo} (hpc : PlatformClean d) {v
     · trivial
 
 
-/-- the residual hypotheses of `C09_full_partial` that can be decided on an export (evaluated on
-every accepted generated song by the C09 judge: `Driver/MdsFile`) -/
-def fullPartialHyps (song : Song) (b : Built) : Bool :=
-  decide ((song.tracks.map (·.1)).Pairwise (· < ·)) && decide (0 < b.trackList.length) && b.seq.all (· < 256) &&
-  (b.trackList.map (·.2) ++ b.conv.subList).all MdsRead.fragB && (b.trackStreams ++ b.subStreams).all (·.length < 65536)
-
+/-- the decidable residual hypotheses of `C09_full_partial` (`Spec/MdsFrag.fullPartialHyps`, evaluated on every
+accepted generated song by the C09 judge, `Driver/MdsFile`) are those of the theorem -/
 theorem fullPartialHyps_sound {song : Song} {b : Built} (h : fullPartialHyps song b = true) :
     (song.tracks.map (·.1)).Pairwise (· < ·) ∧ 0 < b.trackList.length ∧ (∀ x ∈ b.seq, x < 256) ∧
     (∀ l ∈ b.trackList.map (·.2) ++ b.conv.subList, MdsRead.Frag l) ∧ (∀ s ∈ b.trackStreams ++ b.subStreams, s.length < 65536) := by
